@@ -454,4 +454,14 @@ def backport_table(repo: Repo) -> RuleRun:
 
 backport_table.rule_id = "C13.BACKPORT-TABLE"
 
-RULES = [rollback, probe_restore, who_writes_points, backport_rule, warning_filter, affine_kinds, link_relation, owns_geometry, angle_dimension, float_stores, backport_table]
+def mirror_matrix(repo: Repo) -> RuleRun:
+    """'linked vertices follow their leader exactly': a SymmetryLink over a plane in general position reflects. Same rule as C09.MIRROR-MATRIX."""
+    from ..report import rebrand
+    from . import c09
+
+    return rebrand(c09.mirror_matrix(repo), PROP, "C13.MIRROR-MATRIX")
+
+
+mirror_matrix.rule_id = "C13.MIRROR-MATRIX"
+
+RULES = [rollback, probe_restore, who_writes_points, backport_rule, warning_filter, affine_kinds, link_relation, owns_geometry, angle_dimension, float_stores, backport_table, mirror_matrix]
